@@ -112,6 +112,11 @@ def main():
     n_ob = n_dis = 0
     cmds = []
     verus_ms = 0
+    # For a property decided by the bounded tier (level != proof) the Verus worlds are an auxiliary "small proved part":
+    # a function of it that leaves the dialect on this tree loses its proof, which is recorded and printed, but the verdict
+    # then rests on the bounded tier alone (exit 0 if that holds).  For a proof-level property the same event is exit 2.
+    aux = cfg["level"] != "proof"
+    aux_lost = []
 
     # ---------------------------------------------------------------- deductive part (Verus)
     for wname in cfg.get("worlds", []):
@@ -119,7 +124,7 @@ def main():
         cmds.append(w["verus"].get("cmd", f"verus {wname}_world.rs"))
         verus_ms += w["verus"].get("total_ms_all_runs") or 0
         if w["reason"]:
-            undecided.append(f"{wname}: {w['reason']}")
+            (aux_lost if aux else undecided).append(f"{wname}: {w['reason']}")
             continue
         tagged_fns = set()
         for f in w["functions"]:
@@ -128,6 +133,9 @@ def main():
                 cov["functions_under_contract"].append(dict(id=f["id"], file=f["file"], lines=[f["line"], f["end_line"]], token_hash=f["hash"], dialect_rules=f["rules"], reading=f["reading"]))
         for o in w["obligations"]:
             if pid in o["tags"]:
+                if aux and o["status"] == "undecided":
+                    aux_lost.append(f"{wname}: obligation {o['id']} not decided on this tree")
+                    continue
                 n_ob += 1
                 if o["status"] == "discharged":
                     n_dis += 1
@@ -137,7 +145,7 @@ def main():
                 violations.append(dict(key=v["obligation"], world=wname, fn=v["fn"], text=v["rendered"], msg=v["msg"]))
         for u in w["undecided"]:
             if u.get("fn") is None or u.get("fn") in tagged_fns:
-                undecided.append(f"{wname}: {u.get('msg')} ({u.get('reason')}) {u.get('fn') or ''}")
+                (aux_lost if aux else undecided).append(f"{wname}: {u.get('msg')} ({u.get('reason')}) {u.get('fn') or ''}")
         cov.setdefault("vacuity_guard", {})[wname] = w["canaries"]
         for t in w["trusted"]:
             if t not in cov["trusted_base"]:
@@ -216,6 +224,7 @@ def main():
     cov["checker_cmd"] = " ; ".join(dict.fromkeys(cmds)) or "n/a"
     cov["solver_time_ms"] = verus_ms
     cov["undecided"] = undecided
+    cov["proof_part_not_decided"] = aux_lost
     bd = cov["bounded"]
     cov["evaluations"] = bd.get("evaluations", 0) + n_ob
     cov["distinct_nontrivial"] = bd.get("distinct_nontrivial", 0) + n_dis
@@ -235,6 +244,8 @@ def main():
         for u in undecided:
             print(f"UNDECIDED: {u}")
         sys.exit(2)
+    for u in aux_lost:
+        print(f"NOTE: auxiliary proof part lost on this tree, the bounded tier alone decides {pid}: {u}")
     print(f"{pid}: held — {n_dis}/{n_ob} obligations discharged; bounded: {bd.get('summary', 'none')}; {ev['wall_s']}s")
     sys.exit(0)
 
